@@ -407,7 +407,8 @@ def episode(ctx, t, prop, family, tools, memo, mm, rep):
 
 
 R2_GRAMMAR = """
-Model: classes+=Class calls*=Call;
+Model: groups*=Group classes+=Class calls*=Call;
+Group: head=Class 'also' bases+=[Class][','] ';';
 Class: 'class' name=ID ('extends' bases+=[Class][','])? '{' methods*=Method '}';
 Method: 'm' name=ID;
 Call: 'call' name=ID ':' cls=[Class] '.' meth=[Method|ID|.~cls.(~bases)*.methods];
@@ -467,6 +468,18 @@ def run_r2(ctx, t, prop, tools, memo):
         call.cls = c
         call.meth = t.pick(ms, "r2-call-method")
         calls.append(call)
+    # ---- groups: an object that starts at the same offset as the class it contains, with a reference list of the
+    # same attribute name (per-list bookkeeping must not be keyed by start offset + attribute name)
+    groups = []
+    ng = t.draw(3, "r2-ngroups")
+    heads = t.perm(ncls, "r2-group-heads")[:min(ng, ncls - 1)]
+    for gi, hi in enumerate(heads):
+        g = Ent("group", f"G{gi}", path, None)
+        g.head = classes[hi]
+        others = [c for c in classes if c is not g.head]
+        nb = 1 + t.draw(min(3, len(others)), "r2-group-nbases")
+        g.bases = [others[k] for k in t.perm(len(others), "r2-group-bases")[:nb]]
+        groups.append(g)
     # ---- text (calls may come before the classes: forward references everywhere)
     out = []
     pos = [0]
@@ -482,9 +495,8 @@ def run_r2(ctx, t, prop, tools, memo):
         return a
 
     refs = []
-    decl = t.perm(ncls, "r2-text-order")
-    for i in decl:
-        c = classes[i]
+
+    def emit_class(c):
         c.start = T("class")
         T(c.name)
         if c.bases:
@@ -502,6 +514,23 @@ def run_r2(ctx, t, prop, tools, memo):
             m.start = T("m")
             T(m.name)
         T("}")
+
+    in_group = {id(g.head) for g in groups}
+    for g in groups:
+        emit_class(g.head)
+        T("also")
+        for j, b in enumerate(g.bases):
+            if j:
+                T(",")
+            r = Ref(g, "bases", j, b)
+            r.text = r.name = b.name
+            r.pos = T(b.name)
+            g.refs.append(r)
+            refs.append(r)
+        T(";")
+    decl = [i for i in t.perm(ncls, "r2-text-order") if id(classes[i]) not in in_group]
+    for i in decl:
+        emit_class(classes[i])
     mrefs = []
     for call in calls:
         T("call")
@@ -538,7 +567,7 @@ def run_r2(ctx, t, prop, tools, memo):
     def build(scheduler):
         mm = metamodel_from_str(R2_GRAMMAR, textx_tools_support=tools, memoization=memo)
         prov = ScriptedProvider(sp.PlainName(), scheduler, ctx)
-        mm.register_scope_providers({"Class.bases": prov, "Call.cls": prov})
+        mm.register_scope_providers({"Class.bases": prov, "Call.cls": prov, "Group.bases": prov})
         return mm
 
     mm = build(sched)
@@ -558,6 +587,19 @@ def run_r2(ctx, t, prop, tools, memo):
         ctx.probe("list-element-postponed-while-later-resolved")
     ctx.sig = ["r2", mode, sched.trace, text]
     cobj = {c.name: o for c, o in zip([classes[i] for i in decl], model.classes)}
+    for g, go in zip(groups, model.groups):
+        cobj[g.head.name] = go.head
+    for g, go in zip(groups, model.groups):
+        got = list(go.bases)
+        exp = [cobj[b.name] for b in g.bases]
+        if sorted(map(id, got)) != sorted(map(id, exp)):
+            ctx.violate("C09", "result-independent-of-order", "r2/list-content",
+                        f"{g.name}.bases = {[getattr(x, 'name', x) for x in got]}, expected {[b.name for b in g.bases]}")
+        elif [id(x) for x in got] != [id(x) for x in exp]:
+            ctx.violate("C08", "order", f"r2/{mode}/same-start-as-contained-object",
+                        f"{g.name}.bases = {[x.name for x in got]}, textual order is {[b.name for b in g.bases]}")
+            ctx.violate("C09", "result-independent-of-order", "r2/list-order",
+                        f"{g.name}.bases = {[x.name for x in got]} under this schedule")
     for c in classes:
         o = cobj[c.name]
         got = list(o.bases)
